@@ -100,3 +100,25 @@ def builtin_map(ip, st, pos, kws):
     r = ip.items_view(items)
     r.lazy = True
     return [(st, r)]
+
+
+def int_of_string(ip, st, v):
+    """int(<string>): the integer a numeric string denotes; ValueError for any other string"""
+    def fail(s):
+        if ip.may_catch(s, "ValueError"):
+            ip.raise_(s, "ValueError")
+        else:
+            ip.emit("safety", "int() of a string: the string is numeric (else ValueError)", s, FALSE)
+    if isinstance(v, Str):
+        try:
+            k = int(v.s)
+        except ValueError:
+            fail(st)
+            return []
+        return [(st, Num(I(k)))]
+    p = ip.reg.ufun("str_is_int", ["Key"], "Bool")
+    f = ip.reg.ufun("str_to_int", ["Key"], "Int")
+    ok = T("(%s %s)" % (p, v.t.s), "Bool")
+    fail(st.fork(NOT(ok), "notnum."))
+    good = st.fork(ok, "num.")
+    return [(good, Num(T("(%s %s)" % (f, v.t.s), "Int")))]
